@@ -279,9 +279,14 @@ def handle (c : Config) (o : Obj) (nm : Name) : Req → Res
 def exitName : PyStr := [95, 95, 101, 120, 105, 116, 95, 95]
 def handleCtxExit (c : Config) (o : Obj) : Res := thenCall o (run c o (.text exitName) .get)
 
-/-- `_handle_cmp(obj, other, op)`: `_access_attr(type(obj), op, (), "_rpyc_getattr", "allow_getattr", getattr)(obj, other)`;
-`ty` is `type(obj)` seen as an object (its hooks are those of the metaclass) -/
-def handleCmp (c : Config) (ty : Obj) (opName : Name) : Res := thenCall ty (run c ty opName .get)
+/-- `_handle_cmp(obj, other, op)`.  `ty` is `type(obj)` seen as an object (its hooks are those of the metaclass).
+`respects` (measured on the live code): when `type(obj)` defines `_rpyc_getattr`, the OBJECT's hook decides —
+`_access_attr(obj, op, ..)(other)`; otherwise (and always, in the variant that bypasses the hook) the operator is looked
+up on the type under the configuration — `_access_attr(type(obj), op, ..)(obj, other)`. -/
+def handleCmp (respects : Bool) (c : Config) (o ty : Obj) (opName : Name) : Res :=
+  match respects, o.hook .get with
+  | true, some _ => thenCall o (run c o opName .get)
+  | _, _ => thenCall ty (run c ty opName .get)
 
 /-- did the first stage of `_handle_oldslicing` end in an exception (any `Exception` is swallowed): the policy or a
 hook refused, the name was not text, the attribute read raised (object lacks it), or calling the value raised
@@ -517,11 +522,19 @@ structure Modes where
   /-- `Server.__init__` without a `protocol_config` makes a dict object of its own (measured: two such servers hold
   distinct objects); `false`: they all hold one shared object -/
   serversOwnDict : Bool
+  /-- a server given a `protocol_config` dict keeps that very object (documented sharing; measured).  Either value is
+  compatible with the property. -/
+  serverKeepsGiven : Bool
+  /-- `__init__` also copies the `safe_attrs` SET (the pinned code does not: the copy is shallow and the default set
+  object stays shared; measured).  Either value is compatible with the property as long as nobody grows that set. -/
+  copiesSafeSet : Bool
   deriving DecidableEq, Repr, Inhabited
 
-/-- the variant the property needs -/
-def Modes.good : Modes :=
-  { init := .copy, classic := { writesCallerDict := false, addsToSafe := [] }, serversOwnDict := true }
+/-- the variants the property needs: an own copy per connection, classic overrides into it, a dict of its own per
+server — whatever the two harmless choices (`keeps`, `copiesSet`) are -/
+def Modes.good (keeps copiesSet : Bool) : Modes :=
+  { init := .copy, classic := { writesCallerDict := false, addsToSafe := [] }, serversOwnDict := true,
+    serverKeepsGiven := keeps, copiesSafeSet := copiesSet }
 
 /-- the variant measured on the live code -/
 def Modes.measured : Modes :=
@@ -532,7 +545,9 @@ def Modes.measured : Modes :=
       | _ => .layered,
     classic := { writesCallerDict := Gen.Policy.classicWritesCallerDict,
                  addsToSafe := Gen.Policy.classicAddsToSafeCp },
-    serversOwnDict := Gen.Policy.serversOwnDict }
+    serversOwnDict := Gen.Policy.serversOwnDict,
+    serverKeepsGiven := Gen.Policy.serverKeepsGivenDict,
+    copiesSafeSet := !Gen.Policy.initSharesDefaultSafeSet }
 
 /-- the classic-mode overrides as a dict -/
 def slaveDict : HDict := HDict.ofOverlay slaveOverlay
@@ -543,10 +558,19 @@ def HWorld.setDict (w : HWorld) (r : Ref) (d : HDict) : HWorld :=
 def HWorld.setConn (w : HWorld) (i : Nat) (c : HConn) : HWorld :=
   { w with conns := fun k => if k = i then c else w.conns k }
 
+/-- replace a reference to the default set object by a copy of its present content -/
+def HDict.freezeSafe (d : HDict) (content : List PyStr) : HDict :=
+  match d.safe with
+  | some .dfltSet => { d with safe := some (.lit content) }
+  | _ => d
+
 /-- `Connection.__init__(root, channel, D)` for connection `i`, `D` the dict object `arg` -/
-def initConn (m : InitMode) (w : HWorld) (i : Nat) (arg : Ref) : HWorld × List Ref :=
+def initConn (m : InitMode) (copiesSet : Bool) (w : HWorld) (i : Nat) (arg : Ref) : HWorld × List Ref :=
   match m with
-  | .copy => (w.setDict (.own i) ((w.dicts .dflt).update (w.dicts arg)), [.own i])
+  | .copy =>
+    (w.setDict (.own i)
+      (if copiesSet then ((w.dicts .dflt).update (w.dicts arg)).freezeSafe w.dfltSet
+       else (w.dicts .dflt).update (w.dicts arg)), [.own i])
   | .aliasDefault => (w.setDict .dflt ((w.dicts .dflt).update (w.dicts arg)), [.dflt])
   | .aliasArg => (w.setDict arg ((w.dicts .dflt).update (w.dicts arg)), [arg])
   | .layered => (w.setDict (.own i) HDict.empty, [.own i, arg, .dflt])
@@ -570,7 +594,7 @@ def headRef : List Ref → Ref
 def openConn (m : Modes) (w : HWorld) (i : Nat) (arg : Ref) (classic : Bool) : HWorld :=
   let w0 := if classic && m.classic.writesCallerDict then
       w.setDict arg ((w.dicts arg).update slaveDict) else w
-  let (w1, ch) := initConn m.init w0 i arg
+  let (w1, ch) := initConn m.init m.copiesSafeSet w0 i arg
   let w2 := if classic && !m.classic.writesCallerDict then
       w1.setDict (headRef ch) ((w1.dicts (headRef ch)).update slaveDict) else w1
   let w3 := if classic then addToSafe w2 ch m.classic.addsToSafe else w2
@@ -579,7 +603,8 @@ def openConn (m : Modes) (w : HWorld) (i : Nat) (arg : Ref) (classic : Bool) : H
 /-- the dict object a new server holds: the caller's if it gave one (documented sharing), else its own — or, in the
 bad variant, the one shared default -/
 def serverRef (m : Modes) (k : Nat) : Option Nat → Ref
-  | some d => .app d
+  | some d => if m.serverKeepsGiven then .app d else .srv k     -- (a server that copies the given dict: its content is
+                                                               --  copied by `newServer` below)
   | none => if m.serversOwnDict then .srv k else .srvShared
 
 /-- dict objects application code can get hold of and edit -/
@@ -628,7 +653,11 @@ def hstep (m : Modes) (w : HWorld) : HEvent → HWorld
   | .mutDfltSet names => { w with dfltSet := w.dfltSet ++ names }
   | .newServer k d =>
     match w.servers k with
-    | none => { w with servers := fun x => if x = k then some (serverRef m k d) else w.servers x }
+    | none =>
+      let w' : HWorld := { w with servers := fun x => if x = k then some (serverRef m k d) else w.servers x }
+      match d with
+      | some n => if m.serverKeepsGiven then w' else w'.setDict (.srv k) (w.dicts (.app n))
+      | none => w'
     | some _ => w
   | .serverConn i k classic =>
     match w.conns i, w.servers k with
